@@ -165,7 +165,7 @@ Section Model.
   | OAppend (data : list N) (nrec reclen : N)
   | OShrink (nrec reclen : N)
   | OTruncate
-  | OGet (pos reclen : N)              (* get + read reclen bytes through the pointer *)
+  | OGet (pos reclen : N)              (* getsize; if pos is below it: get + read the record *)
   | OGetsize (reclen : N)
   | OExport (reclen : N)
   | OExportdup (reclen : N)
@@ -210,8 +210,12 @@ Section Model.
       let* (ok, e1, o1, ev) := ea_truncate e o in
       Ok (XRc ok, Some e1, o1, ev)
     | OGet pos reclen, Some e =>
-      let* r := mem_read (ea_buf e) (ea_get e pos reclen) reclen in
-      Ok (XRec r, st, o, [])
+      (* the client asks getsize first and only looks at records that exist *)
+      let* n := ea_getsize e reclen in
+      if pos <? n then
+        let* r := mem_read (ea_buf e) (ea_get e pos reclen) reclen in
+        Ok (XRec r, st, o, [])
+      else Ok (XNoObj, st, o, [])
     | OGetsize reclen, Some e =>
       let* n := ea_getsize e reclen in Ok (XSize n, st, o, [])
     | OExport reclen, Some e =>
@@ -273,7 +277,9 @@ Definition ea_spec_step (op : ea_op) (st : option (list N)) (refused : bool)
     (XUnit, Some (firstn (N.to_nat (ideal_len l - nrec * reclen)) l))
   | OTruncate, Some l => (XRc (negb refused), st)
   | OGet pos reclen, Some l =>
-    (XRec (firstn (N.to_nat reclen) (skipn (N.to_nat (pos * reclen)) l)), st)
+    if pos <? ideal_len l / reclen
+    then (XRec (firstn (N.to_nat reclen) (skipn (N.to_nat (pos * reclen)) l)), st)
+    else (XNoObj, st)
   | OGetsize reclen, Some l => (XSize (ideal_len l / reclen), st)
   | OExport reclen, Some l =>
     if refused then (XExport false [] 0, st) else (XExport true l (ideal_len l / reclen), None)
